@@ -278,6 +278,10 @@ func inItems(l *Term, class string, items []locItem) *Term {
 
 func (e *FnExec) doReturn(st *State, r *ssa.Return) {
 	e.retStates = append(e.retStates, st)
+	// vacuity guard: the assumptions collected on the way to this return must be satisfiable
+	e.kindN["reach"]++
+	e.obls = append(e.obls, &Obligation{Name: fmt.Sprintf("%s:return-reachable#%d", e.key, e.kindN["reach"]), Kind: "vacuity-return", Func: e.key,
+		Goal: False, Guard: st.reach, NFacts: len(e.facts), exec: e, Pos: e.pos(r.Pos()), Cover: true})
 	if e.con == nil {
 		return
 	}
